@@ -28,6 +28,6 @@ def main(chk):
 MANIFEST = {
     'category': 'proof',
     'technique': 'Coq proof (a stable insertion sort by a total order on distinct sort keys has a unique result; permutation invariance of lookup) on an executable model of the canonical emission order + vm_compute correspondence of the emitted entry order on real Encoders (every key kind, 5 formats) + direct determinism oracle (insertion permutations x repetitions x goroutines x transports) + Decode(canonical) = Decode(non-canonical)',
-    'text': 'C08_perm: for ALL key kinds, key encodings and maps with pairwise distinct keys satisfying keys_ok, any two iteration orders give the same canonical emission order; keys_ok is automatic for bool/string/int/uint keys (C08_keys_ok_natural) and is injectivity of the key encoding for out-of-band keys (C08_keys_ok_oob, discharged for the modelled scalar encoding: C08_enc_injective_scalars); C08_same: canonical output is a permutation of the plain output and decodes to the same map; C08_struct: struct fields and missing fields come out in one sorted sequence. The unguarded statement is refuted with witnesses for three confirmed defects (C08_perm_refuted F08-1, C08_time_refuted F08-2, C08_binc_symbols_refuted F08-3).',
+    'text': 'C08_perm: for ALL key kinds, key encodings and maps with pairwise distinct keys satisfying keys_ok, any two iteration orders give the same canonical emission order; keys_ok is automatic for bool/string/int/uint keys (C08_keys_ok_natural) and is injectivity of the key encoding for out-of-band keys (C08_keys_ok_oob, discharged for the modelled scalar encoding: C08_enc_injective_scalars); C08_same: canonical output is a permutation of the plain output and decodes to the same map; C08_struct: struct fields and missing fields come out in one sorted sequence; C08_nested: for values with maps at any depth, any two views that differ only in the order maps list their entries have one canonical form. The unguarded statement is refuted with witnesses for three confirmed defects (C08_perm_refuted F08-1, C08_time_refuted F08-2, C08_binc_symbols_refuted F08-3).',
     'note': 'Trusted: Coq kernel, the hand-written model of the canonical order (correspondence-checked on the emitted entry order), the hook that returns out-of-band key bytes, the harness, Go toolchain. The byte-level encodings of keys and values are not modelled here (C01/wire models). Known findings F08-1/2/3 are matched narrowly (key kind + tie count / format + option).',
 }
